@@ -5,12 +5,14 @@ import (
 	"fmt"
 	"math/rand"
 	"strings"
+	"time"
 
 	"github.com/bitcoin-sv/block-headers-service/internal/chaincfg/chainhash"
 	"github.com/bitcoin-sv/block-headers-service/internal/wire"
 	"github.com/bitcoin-sv/block-headers-service/verifharness/ev"
 	"github.com/bitcoin-sv/block-headers-service/verifharness/gen"
 	"github.com/bitcoin-sv/block-headers-service/verifharness/mb"
+	"github.com/bitcoin-sv/block-headers-service/verifharness/p2prig"
 	"github.com/bitcoin-sv/block-headers-service/verifharness/refmodel"
 	"github.com/bitcoin-sv/block-headers-service/verifharness/rig"
 )
@@ -392,11 +394,12 @@ func (e *env) ingest(hist gen.History) bool {
 }
 
 func body(r *ev.Run) {
-	r.Rule("stores = seeded random histories (forks, stale branches, orphans, reorganisations) plus long chains (300 / 2100 quick, + 5000 thorough) with stale branches forking exactly at the locator heights and orphans. Per store: LatestHeaderLocator checked (starts at tip, only longest-chain hashes, strictly descending, single steps then doubling, ends at genesis; also after every extension of a growing chain for tips 0..40), and seeded getheaders queries: locators mixing longest/stale/orphan/unknown/genesis hashes in any order or the service's own locator, stops in {zero, ahead, behind, equal to start, genesis, stale/orphan, unknown}; both LocateHeadersGetHeaders and LocateHeaders compared header-by-header with the model answer. evaluations = getheaders queries; distinct = (locator class set, stop class) cells + locator lengths; non-trivial = all.")
+	r.Rule("stores = seeded random histories (forks, stale branches, orphans, reorganisations) plus long chains (300 / 2100 quick, + 5000 thorough) with stale branches forking exactly at the locator heights and orphans. Per store: LatestHeaderLocator checked (starts at tip, only longest-chain hashes, strictly descending, single steps then doubling, ends at genesis; also after every extension of a growing chain for tips 0..40), and seeded getheaders queries: locators mixing longest/stale/orphan/unknown/genesis hashes in any order or the service's own locator, stops in {zero, ahead, behind, equal to start, genesis, stale/orphan, unknown}; both LocateHeadersGetHeaders and LocateHeaders compared header-by-header with the model answer. plus (d) wire level: the real legacy server, synced from a scripted node, is asked getheaders over TCP by that node (locators of known/unknown hashes, stops ahead / at-or-below start / unknown, chains beyond 2000) and its headers replies are compared with the honest chain. evaluations = getheaders queries; distinct = (locator class set, stop class) cells + locator lengths; non-trivial = all.")
 	r.Assume("the number of single steps before doubling is not fixed by the statement: any count is accepted, the 10-step reference is only recorded", "reference model transcribes the statement", "SQLite only")
 	r.Require("getheaders_capped_at_2000", 1)
 	r.Require("getheaders_stop_ahead", 50)
 	r.Require("locators_checked", 50)
+	r.Require("wire_getheaders_answered", 50)
 	mb.ForbiddenHeaders()
 	st, err := rig.New(rig.Options{Dir: r.Scratch, NoHTTP: true})
 	if err != nil {
@@ -447,6 +450,41 @@ func body(r *ev.Run) {
 				e.getHeaders(query{loc: []refmodel.Hash{e.m.Genesis.Hash}, locClass: "G", stopClass: "zero"})
 			})
 		}
+	}
+	// (d) wire level: the real legacy server answers getheaders from a scripted node (serverpeer.OnGetHeaders)
+	nWire := r.Pick(6, 60)
+	for i := 0; i < nWire; i++ {
+		caseID := fmt.Sprintf("wire/%d", i)
+		r.Do(caseID, func() {
+			rng := r.Rand(caseID)
+			sc := &p2prig.Scenario{ID: caseID, Seed: rng.Int63(), Engine: "legacy", InitialStore: "genesis",
+				HonestLen: 30 + rng.Intn(300), Nodes: []p2prig.NodeSpec{{Kind: "honest"}}, ServeQueries: r.Pick(40, 150)}
+			if i%3 == 0 {
+				sc.HonestLen = 2100 + rng.Intn(300) // answers capped at 2000
+			}
+			sc.CheckpointHeights = []int32{int32(1 + rng.Intn(sc.HonestLen-12))}
+			res, crash := p2prig.RunScenarioChild(r.Scratch, sc, 200*time.Second)
+			if res == nil {
+				r.Violate("crash|wire-scenario", "the service process crashed during a wire-level getheaders scenario", caseID, map[string]any{"scenario": sc, "log_tail": crash})
+				return
+			}
+			for k, v := range res.Counters {
+				if strings.HasPrefix(k, "wire_getheaders") {
+					r.Count(k, v)
+				}
+			}
+			if res.Verdict == "inconclusive" {
+				r.Inconclusive(caseID, res.What)
+				return
+			}
+			for _, f := range res.Violations {
+				if strings.HasPrefix(f.Sig, "served-headers|") {
+					r.Violate(f.Sig, f.What, caseID, map[string]any{"scenario": sc})
+				}
+			}
+			r.Cases(res.Counters["wire_getheaders_asked"])
+			r.Distinct(fmt.Sprintf("wire|len>2000=%v", sc.HonestLen > 2000))
+		})
 	}
 	// (c) random stores
 	nStores := r.Pick(120, 2000)
